@@ -413,7 +413,8 @@ void prop_c05(hz::Ctx &ctx) {
   auto refs = form_refs([](const Form &f) { return std::string(f.pat) == "REL"; });
   for (auto &r : refs) {
     for (int kw = 0; kw < 3; kw++) {
-      if (kw == 1 && !has_rel8(r.mn)) continue;   // "short" only where a rel8 form exists
+      // "short" on call / xbegin (no rel8 form exists): a displacement outside -128..127 must still be refused ("`short` is requested and d is outside"),
+      // inside it the line is refused or is that operation with that displacement
       if (kw == 2 && !has_rel32(r.mn)) continue;  // "long" only where a rel32 form exists
       if (kw == 1 || !has_rel32(r.mn)) for (int64_t d : huge) for (int hex = 0; hex < 2; hex++) {
         LineCase c; c.it = base_intent(r); c.it.brkw = kw; c.it.ops.push_back(wrel(d, hex == 1, 0)); c.combo = (int)((hz::fnv(r.mn) + (uint64_t)d) % 12);
